@@ -590,12 +590,18 @@ func (s *Serializer) Deserialize(src []byte, dst *ParsedJson) (*ParsedJson, erro
 
 		tagDst := uint64(t) << 56
 		if nSkips > 0 && tag != TagNop {
+			if nSkips > len(dst.Tape)-off {
+				return dst, errors.New("tags extended beyond tape")
+			}
 			// We owe skips. Add with jumps
 			for i := 0; i < nSkips; i++ {
 				dst.Tape[off] = (uint64(TagNop) << JSONTAGOFFSET) | uint64(nSkips-i)
 				off++
 			}
 			nSkips = 0
+			if off == len(dst.Tape) {
+				return dst, errors.New("tags extended beyond tape")
+			}
 		}
 		switch tag {
 		case TagNop:
@@ -603,6 +609,9 @@ func (s *Serializer) Deserialize(src []byte, dst *ParsedJson) (*ParsedJson, erro
 		case TagString:
 			if len(values) < 16 {
 				return dst, fmt.Errorf("reading %v: no values left", tag)
+			}
+			if off+1 >= len(dst.Tape) {
+				return dst, fmt.Errorf("reading %v: value extends beyond tape", tag)
 			}
 			sOffset := binary.LittleEndian.Uint64(values[:8])
 			sLen := binary.LittleEndian.Uint64(values[8:16])
@@ -615,6 +624,9 @@ func (s *Serializer) Deserialize(src []byte, dst *ParsedJson) (*ParsedJson, erro
 			if len(values) < 8 {
 				return dst, fmt.Errorf("reading %v: no values left", tag)
 			}
+			if off+1 >= len(dst.Tape) {
+				return dst, fmt.Errorf("reading %v: value extends beyond tape", tag)
+			}
 			dst.Tape[off] = tagDst
 			dst.Tape[off+1] = binary.LittleEndian.Uint64(values[:8])
 			values = values[8:]
@@ -623,6 +635,12 @@ func (s *Serializer) Deserialize(src []byte, dst *ParsedJson) (*ParsedJson, erro
 			// Tape contains full value
 			if len(values) < 16 {
 				return dst, fmt.Errorf("reading %v: no values left", tag)
+			}
+			if off+1 >= len(dst.Tape) {
+				return dst, fmt.Errorf("reading %v: value extends beyond tape", tag)
+			}
+			if Tag(values[7]) != TagFloat {
+				return dst, fmt.Errorf("reading %v: stored tag is not a float", tag)
 			}
 			dst.Tape[off] = binary.LittleEndian.Uint64(values[:8])
 			dst.Tape[off+1] = binary.LittleEndian.Uint64(values[8:16])
@@ -639,7 +657,7 @@ func (s *Serializer) Deserialize(src []byte, dst *ParsedJson) (*ParsedJson, erro
 			val := binary.LittleEndian.Uint64(values[:8])
 			values = values[8:]
 			val += uint64(off)
-			if val > uint64(len(dst.Tape)) {
+			if val > uint64(len(dst.Tape)) || val < uint64(off)+2 {
 				return dst, fmt.Errorf("%v extends beyond tape (%d). offset:%d", tag, len(dst.Tape), val)
 			}
 
@@ -674,6 +692,9 @@ func (s *Serializer) Deserialize(src []byte, dst *ParsedJson) (*ParsedJson, erro
 		}
 	}
 	if nSkips > 0 {
+		if nSkips > len(dst.Tape)-off {
+			return dst, errors.New("tags extended beyond tape")
+		}
 		// We owe skips. Add with jumps
 		for i := 0; i < nSkips; i++ {
 			dst.Tape[off] = (uint64(TagNop) << JSONTAGOFFSET) | uint64(nSkips-i)
